@@ -82,6 +82,8 @@ def gen_scenario(rng, ops_range=(1, 25), w=None, raises=0.0, dup_in_create=0.0, 
                     rng.sample(['eq', 'unhash', 'falsy'], rng.randint(1, 2))
                 if 'unhash' in tr and 'eq' in tr:
                     tr.remove('eq')
+                if kinds[t] == 'c' and rng.random() < 0.3:
+                    tr.append('seq')        # (taken up by the runner for classes without declared bases)
                 lines.append(f'trait {t} ' + ' '.join(tr))
     if decoy and rng.random() < decoy:
         lines.append(f'decoy {rng.randint(0, 999)}')
